@@ -785,6 +785,9 @@ func laws14doc(s sink, c case14, d *docCtx14, probes []probe14) (cls string, got
 	case "fsslice":
 		return lawsFSSlice14(s, c, d)
 	case "lookup":
+		lawPM14(s, c, d)
+		fallthrough
+	case "lookup-only":
 		// C14_lookup_pure (checked by the deferred comparison), no panic
 		cls, found, msg := lookupOn(d.orig, c.Path)
 		if cls == ClsPanic {
@@ -837,6 +840,9 @@ func laws14doc(s sink, c case14, d *docCtx14, probes []probe14) (cls string, got
 			return "", false
 		}
 		return lawsPut14(s, c, d, probes)
+	}
+	if apiOps[c.Op] {
+		return lawsAPI14(s, c, d)
 	}
 	return "", false
 }
